@@ -212,6 +212,223 @@ pub fn parse_f64(s: &str) -> (r: Result<f64, core::num::ParseFloatError>)
     ensures r.is_ok() == f64_grammar(s@), r.is_ok() ==> r.unwrap() == f64_value(s@)
 { s.parse::<f64>() }
 
+// ---------------------------------------------------------------- general UTF-8 offsets (axiomatised facts about UTF-8)
+/// byte offset of char index i
+pub open spec fn boff(s: Seq<char>, i: int) -> int { vstd::utf8::encode_utf8(s.subrange(0, i)).len() as int }
+/// char index of a byte offset that is a char boundary
+pub uninterp spec fn cidx(s: Seq<char>, b: int) -> int;
+pub broadcast axiom fn axiom_boff_boundary(s: &str, i: int)
+    requires 0 <= i <= s@.len()
+    ensures vstd::utf8::is_char_boundary(s.spec_bytes(), #[trigger] boff(s@, i)), 0 <= boff(s@, i) <= s.spec_bytes().len(),
+            i <= boff(s@, i), boff(s@, i) - i <= s.spec_bytes().len() - s@.len();
+pub broadcast axiom fn axiom_boff_ends(s: &str)
+    ensures #[trigger] boff(s@, 0) == 0, boff(s@, s@.len() as int) == s.spec_bytes().len();
+pub broadcast axiom fn axiom_boff_mono(s: Seq<char>, i: int, j: int)
+    requires 0 <= i <= j <= s.len()
+    ensures #[trigger] boff(s, i) + (j - i) <= #[trigger] boff(s, j);
+pub broadcast axiom fn axiom_cidx(s: &str, b: int)
+    requires 0 <= b <= s.spec_bytes().len(), vstd::utf8::is_char_boundary(s.spec_bytes(), b)
+    ensures 0 <= #[trigger] cidx(s@, b) <= s@.len(), boff(s@, cidx(s@, b)) == b;
+pub broadcast axiom fn axiom_cidx_boff(s: Seq<char>, i: int)
+    requires 0 <= i <= s.len()
+    ensures #[trigger] cidx(s, boff(s, i)) == i;
+/// slicing between char boundaries is slicing the char sequence
+pub broadcast axiom fn axiom_slice_chars(s: &str, a: int, b: int, r: &str)
+    requires #[trigger] is_slice(s, a, b, r), slice_ok(s, a, b)
+    ensures r@ == s@.subrange(cidx(s@, a), cidx(s@, b)), cidx(s@, a) <= cidx(s@, b);
+pub broadcast group group_utf8 { axiom_boff_boundary, axiom_boff_ends, axiom_boff_mono, axiom_cidx, axiom_cidx_boff, axiom_slice_chars }
+
+// ---------------------------------------------------------------- str searching / trimming (std::str docs)
+pub open spec fn is_sub_at(s: Seq<char>, p: Seq<char>, i: int) -> bool {
+    0 <= i && i + p.len() <= s.len() && s.subrange(i, i + p.len()) == p
+}
+pub open spec fn contains_seq(s: Seq<char>, p: Seq<char>) -> bool { exists|i: int| is_sub_at(s, p, i) }
+pub open spec fn first_at(s: Seq<char>, p: Seq<char>, i: int) -> bool {
+    is_sub_at(s, p, i) && forall|j: int| 0 <= j < i ==> !is_sub_at(s, p, j)
+}
+pub open spec fn last_at(s: Seq<char>, p: Seq<char>, i: int) -> bool {
+    is_sub_at(s, p, i) && forall|j: int| i < j <= s.len() ==> !is_sub_at(s, p, j)
+}
+pub open spec fn ws(c: char) -> bool { vstd::std_specs::char::is_white_space(c) }
+/// number of leading chars satisfying f
+pub open spec fn lead_count(s: Seq<char>, f: spec_fn(char) -> bool) -> int
+    decreases s.len()
+{
+    if s.len() > 0 && f(s[0]) { 1 + lead_count(s.subrange(1, s.len() as int), f) } else { 0 }
+}
+pub open spec fn trail_count(s: Seq<char>, f: spec_fn(char) -> bool) -> int
+    decreases s.len()
+{
+    if s.len() > 0 && f(s.last()) { 1 + trail_count(s.drop_last(), f) } else { 0 }
+}
+pub open spec fn trim_start_spec(s: Seq<char>, f: spec_fn(char) -> bool) -> Seq<char> { s.subrange(lead_count(s, f), s.len() as int) }
+pub open spec fn trim_end_spec(s: Seq<char>, f: spec_fn(char) -> bool) -> Seq<char> { s.subrange(0, s.len() - trail_count(s, f)) }
+pub open spec fn trim_spec(s: Seq<char>) -> Seq<char> { trim_end_spec(trim_start_spec(s, |c: char| ws(c)), |c: char| ws(c)) }
+pub open spec fn replace_char_spec(s: Seq<char>, from: char, to: Seq<char>) -> Seq<char>
+    decreases s.len()
+{
+    if s.len() == 0 { s } else if s[0] == from { to + replace_char_spec(s.subrange(1, s.len() as int), from, to) }
+    else { seq![s[0]] + replace_char_spec(s.subrange(1, s.len() as int), from, to) }
+}
+/// str::lines(): split at '\n', a trailing '\r' of each line removed, a final empty line not reported
+pub uninterp spec fn lines_spec(s: Seq<char>) -> Seq<Seq<char>>;
+/// str::split(p) for a non-empty pattern
+pub uninterp spec fn split_spec(s: Seq<char>, p: Seq<char>) -> Seq<Seq<char>>;
+pub uninterp spec fn upper_spec(s: Seq<char>) -> Seq<char>;
+pub uninterp spec fn lower_spec(s: Seq<char>) -> Seq<char>;
+
+pub trait VxPat: Sized {
+    spec fn pat_seq(self) -> Seq<char>;
+    fn p_find(self, s: &str) -> (r: Option<usize>)
+        ensures
+            r.is_some() == contains_seq(s@, self.pat_seq()),
+            r.is_some() ==> first_at(s@, self.pat_seq(), cidx(s@, r.unwrap() as int))
+                && vstd::utf8::is_char_boundary(s.spec_bytes(), r.unwrap() as int) && r.unwrap() + vstd::utf8::encode_utf8(self.pat_seq()).len() <= s.spec_bytes().len()
+                && vstd::utf8::is_char_boundary(s.spec_bytes(), r.unwrap() as int + vstd::utf8::encode_utf8(self.pat_seq()).len())
+                && cidx(s@, r.unwrap() as int + vstd::utf8::encode_utf8(self.pat_seq()).len()) == cidx(s@, r.unwrap() as int) + self.pat_seq().len();
+    fn p_rfind(self, s: &str) -> (r: Option<usize>)
+        ensures
+            r.is_some() == contains_seq(s@, self.pat_seq()),
+            r.is_some() ==> last_at(s@, self.pat_seq(), cidx(s@, r.unwrap() as int))
+                && vstd::utf8::is_char_boundary(s.spec_bytes(), r.unwrap() as int) && r.unwrap() + vstd::utf8::encode_utf8(self.pat_seq()).len() <= s.spec_bytes().len();
+    fn p_starts(self, s: &str) -> (r: bool) ensures r == is_sub_at(s@, self.pat_seq(), 0);
+    fn p_ends(self, s: &str) -> (r: bool) ensures r == is_sub_at(s@, self.pat_seq(), s@.len() - self.pat_seq().len());
+    fn p_strip<'a>(self, s: &'a str) -> (r: Option<&'a str>)
+        ensures r.is_some() == is_sub_at(s@, self.pat_seq(), 0),
+                r.is_some() ==> r.unwrap()@ == s@.subrange(self.pat_seq().len() as int, s@.len() as int);
+    fn p_split<'a>(self, s: &'a str) -> (r: Vec<&'a str>)
+        ensures r@.len() == split_spec(s@, self.pat_seq()).len(), r@.len() >= 1,
+                forall|i: int| 0 <= i < r@.len() ==> (#[trigger] r@[i])@ == split_spec(s@, self.pat_seq())[i];
+}
+impl VxPat for char {
+    open spec fn pat_seq(self) -> Seq<char> { seq![self] }
+    #[verifier::external_body] fn p_find(self, s: &str) -> (r: Option<usize>) { s.find(self) }
+    #[verifier::external_body] fn p_rfind(self, s: &str) -> (r: Option<usize>) { s.rfind(self) }
+    #[verifier::external_body] fn p_starts(self, s: &str) -> (r: bool) { s.starts_with(self) }
+    #[verifier::external_body] fn p_ends(self, s: &str) -> (r: bool) { s.ends_with(self) }
+    #[verifier::external_body] fn p_strip<'a>(self, s: &'a str) -> (r: Option<&'a str>) { s.strip_prefix(self) }
+    #[verifier::external_body] fn p_split<'a>(self, s: &'a str) -> (r: Vec<&'a str>) { s.split(self).collect() }
+}
+impl<'b> VxPat for &'b str {
+    open spec fn pat_seq(self) -> Seq<char> { self@ }
+    #[verifier::external_body] fn p_find(self, s: &str) -> (r: Option<usize>) { s.find(self) }
+    #[verifier::external_body] fn p_rfind(self, s: &str) -> (r: Option<usize>) { s.rfind(self) }
+    #[verifier::external_body] fn p_starts(self, s: &str) -> (r: bool) { s.starts_with(self) }
+    #[verifier::external_body] fn p_ends(self, s: &str) -> (r: bool) { s.ends_with(self) }
+    #[verifier::external_body] fn p_strip<'a>(self, s: &'a str) -> (r: Option<&'a str>) { s.strip_prefix(self) }
+    #[verifier::external_body] fn p_split<'a>(self, s: &'a str) -> (r: Vec<&'a str>) { s.split(self).collect() }
+}
+impl<'b> VxPat for &'b String {
+    open spec fn pat_seq(self) -> Seq<char> { self@ }
+    #[verifier::external_body] fn p_find(self, s: &str) -> (r: Option<usize>) { s.find(self.as_str()) }
+    #[verifier::external_body] fn p_rfind(self, s: &str) -> (r: Option<usize>) { s.rfind(self.as_str()) }
+    #[verifier::external_body] fn p_starts(self, s: &str) -> (r: bool) { s.starts_with(self.as_str()) }
+    #[verifier::external_body] fn p_ends(self, s: &str) -> (r: bool) { s.ends_with(self.as_str()) }
+    #[verifier::external_body] fn p_strip<'a>(self, s: &'a str) -> (r: Option<&'a str>) { s.strip_prefix(self.as_str()) }
+    #[verifier::external_body] fn p_split<'a>(self, s: &'a str) -> (r: Vec<&'a str>) { s.split(self.as_str()).collect() }
+}
+
+/// extension methods on str: the extractor renames `.m(` to `.vx_m(` so that Rust's own autoref/autoderef of the
+/// receiver is kept; each body is the original std call.
+pub trait VxStr {
+    spec fn sv(&self) -> Seq<char>;
+    spec fn sb(&self) -> Seq<u8>;
+    fn vx_contains<P: VxPat>(&self, p: P) -> (r: bool) ensures r == contains_seq(self.sv(), p.pat_seq());
+    fn vx_starts_with<P: VxPat>(&self, p: P) -> (r: bool) ensures r == is_sub_at(self.sv(), p.pat_seq(), 0);
+    fn vx_ends_with<P: VxPat>(&self, p: P) -> (r: bool) ensures r == is_sub_at(self.sv(), p.pat_seq(), self.sv().len() - p.pat_seq().len());
+    fn vx_find<P: VxPat>(&self, p: P) -> (r: Option<usize>)
+        ensures
+            r.is_some() == contains_seq(self.sv(), p.pat_seq()),
+            r.is_some() ==> first_at(self.sv(), p.pat_seq(), cidx(self.sv(), r.unwrap() as int))
+                && vstd::utf8::is_char_boundary(self.sb(), r.unwrap() as int) && r.unwrap() + vstd::utf8::encode_utf8(p.pat_seq()).len() <= self.sb().len()
+                && vstd::utf8::is_char_boundary(self.sb(), r.unwrap() as int + vstd::utf8::encode_utf8(p.pat_seq()).len())
+                && cidx(self.sv(), r.unwrap() as int + vstd::utf8::encode_utf8(p.pat_seq()).len()) == cidx(self.sv(), r.unwrap() as int) + p.pat_seq().len();
+    fn vx_rfind<P: VxPat>(&self, p: P) -> (r: Option<usize>)
+        ensures
+            r.is_some() == contains_seq(self.sv(), p.pat_seq()),
+            r.is_some() ==> last_at(self.sv(), p.pat_seq(), cidx(self.sv(), r.unwrap() as int))
+                && vstd::utf8::is_char_boundary(self.sb(), r.unwrap() as int) && r.unwrap() + vstd::utf8::encode_utf8(p.pat_seq()).len() <= self.sb().len();
+    fn vx_strip_prefix<'a, P: VxPat>(&'a self, p: P) -> (r: Option<&'a str>)
+        ensures r.is_some() == is_sub_at(self.sv(), p.pat_seq(), 0),
+                r.is_some() ==> r.unwrap()@ == self.sv().subrange(p.pat_seq().len() as int, self.sv().len() as int);
+    fn vx_trim<'a>(&'a self) -> (r: &'a str) ensures r@ == trim_spec(self.sv());
+    fn vx_trim_start<'a>(&'a self) -> (r: &'a str) ensures r@ == trim_start_spec(self.sv(), |c: char| ws(c));
+    fn vx_trim_end<'a>(&'a self) -> (r: &'a str) ensures r@ == trim_end_spec(self.sv(), |c: char| ws(c));
+    fn vx_trim_end_matches<'a>(&'a self, c: char) -> (r: &'a str) ensures r@ == trim_end_spec(self.sv(), |x: char| x == c);
+    fn vx_trim_start_matches<'a>(&'a self, c: char) -> (r: &'a str) ensures r@ == trim_start_spec(self.sv(), |x: char| x == c);
+    fn vx_replace_char(&self, from: char, to: &str) -> (r: String) ensures r@ == replace_char_spec(self.sv(), from, to@);
+    fn vx_to_uppercase(&self) -> (r: String) ensures r@ == upper_spec(self.sv());
+    fn vx_to_lowercase(&self) -> (r: String) ensures r@ == lower_spec(self.sv());
+    fn vx_lines<'a>(&'a self) -> (r: Vec<&'a str>)
+        ensures r@.len() == lines_spec(self.sv()).len(), forall|i: int| 0 <= i < r@.len() ==> (#[trigger] r@[i])@ == lines_spec(self.sv())[i];
+    fn vx_split<'a, P: VxPat>(&'a self, p: P) -> (r: Vec<&'a str>)
+        ensures r@.len() == split_spec(self.sv(), p.pat_seq()).len(), r@.len() >= 1,
+                forall|i: int| 0 <= i < r@.len() ==> (#[trigger] r@[i])@ == split_spec(self.sv(), p.pat_seq())[i];
+    fn vx_split_at<'a>(&'a self, mid: usize) -> (r: (&'a str, &'a str))
+        requires mid <= self.sb().len(), vstd::utf8::is_char_boundary(self.sb(), mid as int)
+        ensures r.0.spec_bytes() == self.sb().subrange(0, mid as int), r.1.spec_bytes() == self.sb().subrange(mid as int, self.sb().len() as int);
+    fn vx_nth_char(&self, n: usize) -> (r: Option<char>)
+        ensures r.is_some() == (n < self.sv().len()), r.is_some() ==> r.unwrap() == self.sv()[n as int];
+    fn vx_last_char(&self) -> (r: Option<char>)
+        ensures r.is_some() == (self.sv().len() > 0), r.is_some() ==> r.unwrap() == self.sv().last();
+    fn vx_parse_u32(&self) -> (r: Result<u32, core::num::ParseIntError>)
+        ensures r.is_ok() == parse_unsigned_spec(self.sv(), u32::MAX as nat).is_some(),
+                r.is_ok() ==> r.unwrap() as nat == parse_unsigned_spec(self.sv(), u32::MAX as nat).unwrap();
+    fn vx_parse_u8(&self) -> (r: Result<u8, core::num::ParseIntError>)
+        ensures r.is_ok() == parse_unsigned_spec(self.sv(), u8::MAX as nat).is_some(),
+                r.is_ok() ==> r.unwrap() as nat == parse_unsigned_spec(self.sv(), u8::MAX as nat).unwrap();
+    fn vx_parse_u16(&self) -> (r: Result<u16, core::num::ParseIntError>)
+        ensures r.is_ok() == parse_unsigned_spec(self.sv(), u16::MAX as nat).is_some(),
+                r.is_ok() ==> r.unwrap() as nat == parse_unsigned_spec(self.sv(), u16::MAX as nat).unwrap();
+    fn vx_parse_usize(&self) -> (r: Result<usize, core::num::ParseIntError>)
+        ensures r.is_ok() == parse_unsigned_spec(self.sv(), usize::MAX as nat).is_some(),
+                r.is_ok() ==> r.unwrap() as nat == parse_unsigned_spec(self.sv(), usize::MAX as nat).unwrap();
+    fn vx_parse_i32(&self) -> (r: Result<i32, core::num::ParseIntError>)
+        ensures r.is_ok() == parse_i32_spec(self.sv()).is_some(),
+                r.is_ok() ==> r.unwrap() as int == parse_i32_spec(self.sv()).unwrap();
+    fn vx_parse_f64(&self) -> (r: Result<f64, core::num::ParseFloatError>)
+        ensures r.is_ok() == f64_grammar(self.sv()), r.is_ok() ==> r.unwrap() == f64_value(self.sv());
+}
+impl VxStr for str {
+    open spec fn sv(&self) -> Seq<char> { self@ }
+    open spec fn sb(&self) -> Seq<u8> { self.spec_bytes() }
+    fn vx_contains<P: VxPat>(&self, p: P) -> (r: bool) { p.p_find(self).is_some() }
+    fn vx_starts_with<P: VxPat>(&self, p: P) -> (r: bool) { p.p_starts(self) }
+    fn vx_ends_with<P: VxPat>(&self, p: P) -> (r: bool) { p.p_ends(self) }
+    fn vx_find<P: VxPat>(&self, p: P) -> (r: Option<usize>) { p.p_find(self) }
+    fn vx_rfind<P: VxPat>(&self, p: P) -> (r: Option<usize>) { p.p_rfind(self) }
+    fn vx_strip_prefix<'a, P: VxPat>(&'a self, p: P) -> (r: Option<&'a str>) { p.p_strip(self) }
+    #[verifier::external_body] fn vx_trim<'a>(&'a self) -> (r: &'a str) { self.trim() }
+    #[verifier::external_body] fn vx_trim_start<'a>(&'a self) -> (r: &'a str) { self.trim_start() }
+    #[verifier::external_body] fn vx_trim_end<'a>(&'a self) -> (r: &'a str) { self.trim_end() }
+    #[verifier::external_body] fn vx_trim_end_matches<'a>(&'a self, c: char) -> (r: &'a str) { self.trim_end_matches(c) }
+    #[verifier::external_body] fn vx_trim_start_matches<'a>(&'a self, c: char) -> (r: &'a str) { self.trim_start_matches(c) }
+    #[verifier::external_body] fn vx_replace_char(&self, from: char, to: &str) -> (r: String) { self.replace(from, to) }
+    #[verifier::external_body] fn vx_to_uppercase(&self) -> (r: String) { self.to_uppercase() }
+    #[verifier::external_body] fn vx_to_lowercase(&self) -> (r: String) { self.to_lowercase() }
+    #[verifier::external_body] fn vx_lines<'a>(&'a self) -> (r: Vec<&'a str>) { self.lines().collect() }
+    fn vx_split<'a, P: VxPat>(&'a self, p: P) -> (r: Vec<&'a str>) { p.p_split(self) }
+    #[verifier::external_body] fn vx_split_at<'a>(&'a self, mid: usize) -> (r: (&'a str, &'a str)) { self.split_at(mid) }
+    #[verifier::external_body] fn vx_nth_char(&self, n: usize) -> (r: Option<char>) { self.chars().nth(n) }
+    #[verifier::external_body] fn vx_last_char(&self) -> (r: Option<char>) { self.chars().last() }
+    #[verifier::external_body] fn vx_parse_u32(&self) -> (r: Result<u32, core::num::ParseIntError>) { self.parse::<u32>() }
+    #[verifier::external_body] fn vx_parse_u8(&self) -> (r: Result<u8, core::num::ParseIntError>) { self.parse::<u8>() }
+    #[verifier::external_body] fn vx_parse_u16(&self) -> (r: Result<u16, core::num::ParseIntError>) { self.parse::<u16>() }
+    #[verifier::external_body] fn vx_parse_usize(&self) -> (r: Result<usize, core::num::ParseIntError>) { self.parse::<usize>() }
+    #[verifier::external_body] fn vx_parse_i32(&self) -> (r: Result<i32, core::num::ParseIntError>) { self.parse::<i32>() }
+    #[verifier::external_body] fn vx_parse_f64(&self) -> (r: Result<f64, core::num::ParseFloatError>) { self.parse::<f64>() }
+}
+
+/// `[T]::contains(&x)` for slices of string literals (code tables)
+pub trait VxSliceStr {
+    spec fn elems(&self) -> Seq<Seq<char>>;
+    fn vx_contains(&self, x: &&str) -> (r: bool) ensures r == self.elems().contains(x@);
+}
+impl<'a> VxSliceStr for [&'a str] {
+    open spec fn elems(&self) -> Seq<Seq<char>> { self@.map_values(|e: &str| e@) }
+    #[verifier::external_body] fn vx_contains(&self, x: &&str) -> (r: bool) { self.contains(x) }
+}
+
 // ---------------------------------------------------------------- Vec iteration idioms
 #[verifier::external_body]
 pub fn vec_any<T, F: Fn(&T) -> bool>(v: &Vec<T>, f: F) -> (r: bool)
